@@ -1438,9 +1438,10 @@ class MindsDBParser(Parser):
 
     # OPERATIONS
 
-    @_('LPAREN select RPAREN')
+    @_('LPAREN select RPAREN',
+       'LPAREN union RPAREN')
     def expr(self, p):
-        select = p.select
+        select = p[1]
         select.parentheses = True
         return select
 
